@@ -66,3 +66,158 @@ Proof. exact de_morgan8. Qed.
 Theorem C12_lanes_independent : forall w p ins lane, (lane < w)%N ->
   map (fun x => N.testbit x lane) (run_N w p ins) = run_bool p (map (fun x => N.testbit x lane) ins).
 Proof. exact lanes_independent. Qed.
+
+(** ** the array layer: public wrappers mv_not / mv_or / mv_and / mv_xor on arrays of ANY shape
+    Model: Model/NdArray.v (shape = list of axis lengths, data in row-major order; numpy's broadcasting, ufunc out= / where=,
+    putmask as small functions, compared with numpy on random shapes) and Model/MvWrappers.v (kernels and wrappers call by call). *)
+From KV Require Import Model.Encodings Model.NdArray Model.MvWrappers Proofs.NdArrayProofs Proofs.MvWrapperProofs Proofs.MvWrapperAlgebra.
+
+(* offsets below the size and in-bounds multi-indices correspond one to one (row-major) *)
+Theorem C12_index_offset_bijection : forall sh,
+  (forall k, k < size sh -> in_bounds sh (unravel sh k) /\ ravel sh (unravel sh k) = k) /\
+  (forall idx, in_bounds sh idx -> ravel sh idx < size sh /\ unravel sh (ravel sh idx) = idx).
+Proof. exact index_offset_bijection. Qed.
+
+(* numpy's broadcasting rule: rank = the larger rank; per axis from the right equal lengths or a 1 (missing axes count as 1) *)
+Theorem C12_broadcast_rule : forall s t b, broadcast2 s t = Some b ->
+  List.length b = Nat.max (List.length s) (List.length t) /\
+  forall i, i < List.length b ->
+    let n := List.length b in
+    let ds := nth i (pad_to n s) 1 in let dt := nth i (pad_to n t) 1 in
+    (ds = dt \/ ds = 1 \/ dt = 1) /\ nth i b 1 = (if ds =? 1 then dt else ds).
+Proof. exact broadcast2_rule. Qed.
+
+Theorem C12_broadcast_fail : forall s t, broadcast2 s t = None <->
+  exists i, let n := Nat.max (List.length s) (List.length t) in
+    i < n /\ nth i (pad_to n s) 1 <> nth i (pad_to n t) 1 /\ nth i (pad_to n s) 1 <> 1 /\ nth i (pad_to n t) 1 <> 1.
+Proof. exact broadcast2_fail. Qed.
+
+(* broadcast_index: a binary element-wise operation delivers, at every multi-index i of the broadcast shape,
+   f (a at i mod shape a) (b at i mod shape b) -- indices right-aligned -- for ALL shapes *)
+Theorem C12_broadcast_index : forall f a b r, ufunc2 f a b = Some r ->
+  broadcast2 (nd_shape a) (nd_shape b) = Some (nd_shape r) /\ nd_wf r /\
+  forall idx, in_bounds (nd_shape r) idx ->
+    nd_get r idx = f (nd_get a (bidx (nd_shape a) idx)) (nd_get b (bidx (nd_shape b) idx)).
+Proof. exact broadcast_index. Qed.
+
+(* the wrappers mv_or / mv_and / mv_xor, out=None or caller-supplied: whenever the call returns, the result has out's shape
+   (the broadcast shape without out=) and is the documented algebra element by element under broadcasting *)
+Theorem C12_wrapper_elementwise : forall op junk x1 x2 out r, nd_wf x1 -> nd_wf x2 ->
+  mvw_bin false op junk x1 x2 out = Some r ->
+  (match out with
+   | Some o => nd_shape r = nd_shape o
+   | None => broadcast2 (nd_shape x1) (nd_shape x2) = Some (nd_shape r)
+   end) /\ nd_wf r /\
+  forall idx, in_bounds (nd_shape r) idx ->
+    nd_get r idx = elem2 op (nd_get x1 (bidx (nd_shape x1) idx)) (nd_get x2 (bidx (nd_shape x2) idx)) /\
+    (Forall (fun v => v < 8) (nd_data x1) -> Forall (fun v => v < 8) (nd_data x2) ->
+     nd_get r idx = cnum (spec_of (nary_of op) [ccode (nd_get x1 (bidx (nd_shape x1) idx)); ccode (nd_get x2 (bidx (nd_shape x2) idx))])).
+Proof. exact wrapper_elementwise. Qed.
+
+(* exactly when the call returns and what: without out= iff the shapes are compatible; with out=o iff the operands stretch to
+   o's shape and o has as many elements as the broadcast shape; otherwise it raises *)
+Theorem C12_wrapper_exact : forall op junk x1 x2, nd_wf x1 -> nd_wf x2 ->
+  mvw_bin false op junk x1 x2 None =
+    match broadcast2 (nd_shape x1) (nd_shape x2) with
+    | Some b => Some (tabulate b (fun k => elem2 op (bget x1 b k) (bget x2 b k)))
+    | None => None
+    end /\
+  forall o, mvw_bin false op junk x1 x2 (Some o) =
+    if bin_ok (nd_shape x1) (nd_shape x2) (nd_shape o)
+    then Some (tabulate (nd_shape o) (fun k => elem2 op (bget x1 (nd_shape o) k) (bget x2 (nd_shape o) k)))
+    else None.
+Proof. intros op junk x1 x2 W1 W2. split; [apply mvw_bin_fresh | intro o; apply mvw_bin_out]; assumption. Qed.
+
+(* out=: an array of the broadcast shape receives exactly the out=None result whatever it held; wrong sizes / shapes raise *)
+Theorem C12_wrapper_out : forall op junk x1 x2 o, nd_wf x1 -> nd_wf x2 ->
+  (forall b, broadcast2 (nd_shape x1) (nd_shape x2) = Some b -> nd_shape o = b ->
+     mvw_bin false op junk x1 x2 (Some o) = mvw_bin false op junk x1 x2 None /\ mvw_bin false op junk x1 x2 (Some o) <> None) /\
+  (forall o', nd_shape o' = nd_shape o -> mvw_bin false op junk x1 x2 (Some o') = mvw_bin false op junk x1 x2 (Some o)) /\
+  (forall b, broadcast2 (nd_shape x1) (nd_shape x2) = Some b -> size (nd_shape o) <> size b -> mvw_bin false op junk x1 x2 (Some o) = None) /\
+  (broadcast2 (nd_shape x1) (nd_shape x2) = None -> mvw_bin false op junk x1 x2 (Some o) = None) /\
+  (bc_to (nd_shape x1) (nd_shape o) = false \/ bc_to (nd_shape x2) (nd_shape o) = false -> mvw_bin false op junk x1 x2 (Some o) = None).
+Proof. exact wrapper_out. Qed.
+
+Theorem C12_wrapper_junk_irrelevant : forall op j1 j2 x1 x2 out, nd_wf x1 -> nd_wf x2 ->
+  mvw_bin false op j1 x1 x2 out = mvw_bin false op j2 x1 x2 out.
+Proof. exact wrapper_junk_irrelevant. Qed.
+
+Theorem C12_wrapper_not : forall junk x out r, nd_wf x -> mvw_not junk x out = Some r ->
+  nd_shape r = (match out with Some o => nd_shape o | None => nd_shape x end) /\
+  forall idx, in_bounds (nd_shape r) idx ->
+    nd_get r idx = not_s (nd_get x (bidx (nd_shape x) idx)) /\
+    (Forall (fun v => v < 8) (nd_data x) -> nd_get r idx = cnum (spec_not (ccode (nd_get x (bidx (nd_shape x) idx))))).
+Proof. exact wrapper_not. Qed.
+
+Theorem C12_wrapper_not_out : forall junk x o, nd_wf x ->
+  mvw_not junk x None <> None /\
+  (nd_shape o = nd_shape x -> mvw_not junk x (Some o) = mvw_not junk x None) /\
+  (size (nd_shape o) <> size (nd_shape x) -> mvw_not junk x (Some o) = None) /\
+  (bc_to (nd_shape x) (nd_shape o) = false -> mvw_not junk x (Some o) = None).
+Proof. exact wrapper_not_out. Qed.
+
+(* the element function of the array-level transcription is the documented algebra and the value of the kernel program
+   traced from the source (two operands) *)
+Theorem C12_elem_algebra :
+  (forall op a b, a < 8 -> b < 8 -> elem2 op a b = cnum (spec_of (nary_of op) [ccode a; ccode b])) /\
+  (forall a, a < 8 -> not_s a = cnum (spec_not (ccode a))) /\
+  (forall op a b, a < 8 -> b < 8 ->
+     exists p, nth_error (mv_of (nary_of op)) 1 = Some p /\ nat_of_bits (run_bool p (encode_ins 3 [ccode a; ccode b])) = elem2 op a b).
+Proof. exact (conj elem2_algebra (conj not_s_algebra elem2_traced)). Qed.
+
+(* hypotheses satisfiable: stretched operands in both directions, out= with an extra leading axis, wrong out=, incompatible shapes *)
+Theorem C12_wrapper_example :
+  nd_wf ex_a /\ nd_wf ex_b /\
+  mvw_or (fun _ => 238) ex_a ex_b None = Some (NdA [2; 3] [3; 1; 3; 1; 1; 3]) /\
+  mvw_or (fun _ => 238) ex_b ex_a None = Some (NdA [2; 3] [3; 1; 3; 1; 1; 3]) /\
+  mvw_and (fun _ => 0) ex_b ex_a (Some (NdA [1; 2; 3] [9; 9; 9; 9; 9; 9])) = Some (NdA [1; 2; 3] [0; 0; 5; 0; 1; 7]) /\
+  mvw_xor (fun _ => 0) ex_b ex_a (Some (NdA [3] [9; 9; 9])) = None /\
+  mvw_xor (fun _ => 0) ex_b (NdA [2] [0; 1]) None = None.
+Proof. exact wrapper_ex. Qed.
+
+(* the code before the repair 666613e (D35): compatible operands raised whenever x1 had to be stretched *)
+Theorem C12_wrapper_broadcast_refuted :
+  broadcast2 (nd_shape ex_a) (nd_shape ex_b) = Some [2; 3] /\
+  (forall op, mvw_bin true op (fun _ => 0) ex_a ex_b None = None) /\
+  (forall op, mvw_bin false op (fun _ => 0) ex_a ex_b None <> None).
+Proof. exact wrapper_broadcast_refuted. Qed.
+
+(** ** mv_transition on arrays of any shape (Model/MvTransition.v) *)
+From KV Require Import Model.MvTransition Proofs.MvTransitionProofs.
+
+(* exactly when the call returns and what: shapes compatible, out (if given) has as many elements as the broadcast shape b and b
+   (surplus leading 1 axes dropped) stretches to it; the result holds tr_s of the stretched operands in row-major order of b *)
+Theorem C12_transition_exact : forall junk x1 x2 out, nd_wf x1 -> nd_wf x2 ->
+  mvw_transition junk x1 x2 out =
+  match broadcast2 (nd_shape x1) (nd_shape x2) with
+  | Some b => let so := match out with Some o => nd_shape o | None => b end in
+              if tr_ok b so then Some (tabulate so (fun k => tr_s (bget x1 b k) (bget x2 b k))) else None
+  | None => None
+  end.
+Proof. exact transition_exact. Qed.
+
+(* by multi-index, and on codes the documented transition (initial value of init -> final value of final; unknown if an input is
+   unknown or only one is unassigned; unassigned if both are) *)
+Theorem C12_transition_elementwise : forall junk x1 x2 r, nd_wf x1 -> nd_wf x2 ->
+  mvw_transition junk x1 x2 None = Some r ->
+  broadcast2 (nd_shape x1) (nd_shape x2) = Some (nd_shape r) /\
+  forall idx, in_bounds (nd_shape r) idx ->
+    nd_get r idx = tr_s (nd_get x1 (bidx (nd_shape x1) idx)) (nd_get x2 (bidx (nd_shape x2) idx)) /\
+    (Forall (fun v => v < 8) (nd_data x1) -> Forall (fun v => v < 8) (nd_data x2) ->
+     nd_get r idx = cnum (spec_transition (ccode (nd_get x1 (bidx (nd_shape x1) idx))) (ccode (nd_get x2 (bidx (nd_shape x2) idx))))).
+Proof. exact transition_elementwise. Qed.
+
+Theorem C12_transition_out : forall junk x1 x2 o b, nd_wf x1 -> nd_wf x2 -> broadcast2 (nd_shape x1) (nd_shape x2) = Some b ->
+  (nd_shape o = b -> mvw_transition junk x1 x2 (Some o) = mvw_transition junk x1 x2 None) /\
+  (forall r r0, mvw_transition junk x1 x2 (Some o) = Some r -> mvw_transition junk x1 x2 None = Some r0 ->
+     nd_shape r = nd_shape o /\ nd_data r = nd_data r0) /\
+  (size (nd_shape o) <> size b -> mvw_transition junk x1 x2 (Some o) = None) /\
+  (forall o' j', nd_shape o' = nd_shape o -> mvw_transition j' x1 x2 (Some o') = mvw_transition junk x1 x2 (Some o)).
+Proof. exact transition_out. Qed.
+
+Theorem C12_transition_example :
+  mvw_transition (fun _ => 9) (NdA [3] [0; 3; 2]) (NdA [2; 3] [3; 0; 2; 1; 3; 3]) None = Some (NdA [2; 3] [5; 6; 2; 1; 3; 1]) /\
+  mvw_transition (fun _ => 9) (NdA [1; 1; 3] [0; 3; 2]) (NdA [3] [3; 0; 2]) (Some (NdA [3] [9; 9; 9])) = Some (NdA [3] [5; 6; 2]) /\
+  mvw_transition (fun _ => 9) (NdA [1; 1; 3] [0; 3; 2]) (NdA [3] [3; 0; 2]) (Some (NdA [3; 1] [9; 9; 9])) = None /\
+  mvw_transition (fun _ => 9) (NdA [2] [0; 3]) (NdA [3] [3; 0; 2]) None = None.
+Proof. exact transition_ex. Qed.
